@@ -95,17 +95,17 @@ theorem isEstimateN_eq (ss : List (ISSample α)) : isEstimateN ss.length ss = is
 
 /-- a call in the modelled mode on exactly `mc_samples` draws -/
 theorem isCall_eq (a : ISAttrs α σ) (t : List σ) (hsn : a.selfNormalize = false)
-    (hlog : a.isLog = false) (hl : t.length = a.mcSamples) :
+    (hlog : a.isLog = false) (hl : t.length = a.mcSamples) (h0 : a.mcSamples ≠ 0) :
     isCall a t = some (isEstimate (t.map fun b => ⟨a.func b, a.density b, a.proposal b⟩)) := by
   have hN : (t.map fun b => (⟨a.func b, a.density b, a.proposal b⟩ : ISSample α)).length = a.mcSamples := by
     simp [hl]
-  simp only [isCall, hsn, hlog, Bool.or_self, Bool.false_eq_true, if_false, hl, Nat.lt_irrefl]
+  simp only [isCall, hsn, hlog, Bool.or_self, Bool.false_eq_true, if_false, hl, Nat.lt_irrefl, h0]
   rw [← hl, List.take_length, hl, ← hN, isEstimateN_eq]
 
 theorem directCall_eq (a : DirectAttrs α σ) (t : List σ) (hlog : a.isLog = false)
-    (hl : t.length = a.mcSamples) :
+    (hl : t.length = a.mcSamples) (h0 : a.mcSamples ≠ 0) (hcv : (a.cv.isSome && a.cvMean.isNone) = false) :
     directCall a t = some (directEstimate (t.map a.sample) a.cvMean) := by
-  simp only [directCall, hlog, Bool.false_eq_true, if_false, hl, Nat.lt_irrefl]
+  simp only [directCall, hlog, Bool.false_eq_true, if_false, hl, Nat.lt_irrefl, h0, hcv]
   rw [← hl, List.take_length]
 
 /-- without a control variate `cv_mean` is not looked at (an object whose `cv` was taken away may
